@@ -242,6 +242,62 @@ def process_state(args):
     return key, res
 
 
+def two_files(chk, world, canon, wdw, tier):
+    """TwoFiles.tla: commands on two dataset files interleaved in one process; each file must end with the
+    canonical content of ITS OWN abstract state (a doomed or failing command on one file in between included)"""
+    invs = ["Isolated"]
+    res = tlc.run("TwoFiles", tlc.cfg_text({"ClsArgs": '{"a1"}', "GridArgs": '{"d1"}', "CurvArgs": '{"c1"}',
+                                            "Refs": '{"top"}', "NW": "1"}, spec="Spec", invariants=invs), workers=4,
+                  invariants=invs)
+    chk.add_tlc(res, "TwoFiles (product of two Spowtd instances)")
+    if res.get("violated"):
+        chk.violation("TwoFiles.tla: " + res["error"][:400], {"kind": "tlc"})
+        return
+    import random
+    rng = random.Random(seed() + 2)
+    empty = {"cls": "none", "grid": "none", "curv": "none", "rise": {"ref": "none", "cls": "none", "grid": "none"},
+             "rec": {"ref": "none", "cls": "none", "grid": "none"}}
+    plans = {"A": [("classify", "a1"), ("set-zeta-grid", "d2"), ("rise", "top"), ("set-curvature", "c1"), ("recession", "r1")],
+             "B": [("set-zeta-grid", "d1"), ("set-curvature", "c2"), ("classify", "a2"), ("recession", "top"), ("rise", "r1")]}
+    for trial in range(3 if tier == "quick" else 20):
+        dbs = {k: os.path.join(wdw, "two_%s_%d.sqlite3" % (k, trial)) for k in "AB"}
+        state = {k: json.loads(json.dumps(empty)) for k in "AB"}
+        for k in "AB":
+            shutil.copy(world.base, dbs[k])
+        todo = {k: list(v) for k, v in plans.items()}
+        while todo["A"] or todo["B"]:
+            k = rng.choice([x for x in "AB" if todo[x]])
+            c = todo[k].pop(0)
+            if rng.random() < 0.3:      # a doomed attempt on the OTHER file in between
+                other = "B" if k == "A" else "A"
+                P.cli(world.argv(("rise", "top") if state[other]["grid"] == "none" else ("set-zeta-grid", "d1"),
+                                 dbs[other], dbs[other] + ".out"))
+            o = P.cli(world.argv(c, dbs[k], dbs[k] + ".out"))
+            chk.count("evaluations")
+            if not o.ok:
+                chk.violation("two files: %s %s on file %s failed: %s" % (c[0], c[1], k, o.describe()),
+                              {"kind": "txn_two", "cmd": list(c)})
+                break
+            d = state[k]
+            if c[0] == "classify":
+                d["cls"] = c[1]
+            elif c[0] == "set-zeta-grid":
+                d["grid"] = c[1]
+            elif c[0] == "set-curvature":
+                d["curv"] = c[1]
+            else:
+                d["rise" if c[0] == "rise" else "rec"] = {"ref": c[1], "cls": d["cls"], "grid": d["grid"]}
+        for k in "AB":
+            key = state_key({"disk": state[k]})
+            chk.count("traces_validated_against_impl")
+            if key in canon and P.logical_dump(dbs[k]) != canon[key][1]:
+                chk.violation("two files interleaved: file %s does not hold the canonical content of its own state %s" % (k, key),
+                              {"kind": "txn_two", "file": k, "state": state[k]})
+            elif key not in canon:
+                raise MachineryError("two-files replay reached a state without canonical dump: " + key)
+            os.unlink(dbs[k])
+
+
 def c20(chk, tier):
     q = tier == "quick"
     chk.level = "model_checking"
@@ -346,6 +402,7 @@ def c20(chk, tier):
                             if tkey not in done:
                                 nxt.append(tkey)
                 frontier = sorted(set(nxt))
+        two_files(chk, world, canon, wdw, tier)
         chk.cov["abstract_idle_states_reached"] = len(canon)
         chk.cov["abstract_idle_states_in_model"] = len(states)
         chk.cov["model_edges"] = n_edges_model
